@@ -1271,6 +1271,99 @@ def gen_bt_elem_sites(repo):
     return m
 
 
+def gen_wfm_reduce(repo):
+    """T30: what `__reduce__` of the three buffer classes hands to the constructor - each positional and keyword argument as the
+    observable member it reads (`self.raw_data` / `self.data` are words for the visible window only after their property bodies
+    have been checked to return `self._data[start : start + count]`; `self._data` is the whole buffer, a different word) -, the
+    constructor's own parameter list, and `_unpickle` compared with its statement list.  Interpreted by Model.Wfm.pickleVia."""
+    ast = T.ast
+    m = T.Module(f"{repo}/src/nitypes/waveform/_numeric.py", "Gen.WfmReduce")
+    WINDOW = "return self._data[self._start_index:self._start_index + self._sample_count]"
+    args_tbl, kw_tbl, params_tbl = [], [], []
+    for path, cls, data_kw in (("waveform/_numeric.py", "NumericWaveform", "raw_data"), ("waveform/_digital/_waveform.py", "DigitalWaveform", "data"),
+                               ("waveform/_spectrum.py", "Spectrum", "data")):
+        mod = T.Module(f"{repo}/src/nitypes/{path}", "Gen.WfmReduce")
+        c = mod.find_class(cls)
+        funcs = {}
+        for f in c.body:
+            if isinstance(f, ast.FunctionDef):
+                funcs.setdefault(f.name, []).append(f)
+
+        def body_of(name):
+            fs = [f for f in funcs.get(name, []) if not any(ast.unparse(d) == "overload" for d in f.decorator_list)]
+            getters = [f for f in fs if any(ast.unparse(d) == "property" for d in f.decorator_list)]
+            if getters:
+                fs = getters[:1] if len(getters) == 1 else []
+            if len(fs) != 1:
+                raise T.Untranslatable(f"{cls}.{name}: expected exactly one definition", c, mod.path)
+            f = fs[0]
+            b = [st for st in f.body if not (isinstance(st, ast.Expr) and isinstance(st.value, ast.Constant) and isinstance(st.value.value, str))]
+            return f, b
+        words = {"self._sample_count": "count", "self._extended_properties": "props", "self._timing": "timing", "self._scale_mode": "scale",
+                 "self._start_frequency": "start_frequency", "self._frequency_increment": "frequency_increment", "self._data": "buffer",
+                 "self._start_index": "start", "False": "False", "True": "True", "None": "None"}
+        for prop, word, want in (("raw_data", "view", [WINDOW]), ("data", "view", [WINDOW]), ("dtype", "dtype", ["return self._data.dtype"]),
+                                 ("signal_count", "ncols", ["shape: tuple[int, ...] = self._data.shape", "return shape[1]"]),
+                                 ("sample_count", "count", ["return self._sample_count"]), ("timing", "timing", ["return self._timing"]),
+                                 ("scale_mode", "scale", ["return self._scale_mode"]), ("extended_properties", "props", ["return self._extended_properties"]),
+                                 ("capacity", "capacity", ["return len(self._data)"])):
+            if prop in funcs:
+                _, b = body_of(prop)
+                got = [ast.unparse(x) for x in b if not isinstance(x, ast.Expr)]
+                got = [g for g in got]
+                if got == want:
+                    words[f"self.{prop}"] = word
+        fr, rb = body_of("__reduce__")
+        want_shape = ["ctor_args", "ctor_kwargs", "return (self.__class__._unpickle, (ctor_args, ctor_kwargs))"]
+        if len(rb) != 3 or not isinstance(rb[0], ast.Assign) or not isinstance(rb[1], (ast.AnnAssign, ast.Assign)) \
+                or ast.unparse(rb[0].targets[0]) != "ctor_args" or ast.unparse(rb[1].target if isinstance(rb[1], ast.AnnAssign) else rb[1].targets[0]) != "ctor_kwargs" \
+                or ast.unparse(rb[2]) != want_shape[2] or not isinstance(rb[0].value, ast.Tuple) or not isinstance(rb[1].value, ast.Dict):
+            raise T.Untranslatable(f"{cls}.__reduce__: not `ctor_args = (...)`, `ctor_kwargs = {{...}}`, `{want_shape[2]}`", fr, mod.path)
+
+        def word(e):
+            t = ast.unparse(e)
+            if t not in words:
+                raise T.Untranslatable(f"{cls}.__reduce__: `{t}` is not a known member of the object", e, mod.path)
+            return words[t]
+        args_tbl.append((cls, [word(e) for e in rb[0].value.elts]))
+        kws = []
+        for k, v in zip(rb[1].value.keys, rb[1].value.values):
+            if not (isinstance(k, ast.Constant) and isinstance(k.value, str)):
+                raise T.Untranslatable(f"{cls}.__reduce__: keyword `{ast.unparse(k) if k else '**'}`", rb[1], mod.path)
+            kws.append((k.value, word(v)))
+        kw_tbl.append((cls, kws))
+        fi, _ = body_of("__init__")
+        if fi.args.vararg or fi.args.kwarg or fi.args.posonlyargs:
+            raise T.Untranslatable(f"{cls}.__init__: *args / **kwargs", fi, mod.path)
+        params_tbl.append((cls, [a.arg for a in fi.args.args[1:]], [a.arg for a in fi.args.kwonlyargs]))
+        fu, ub = body_of("_unpickle")
+        want = [f"data = kwargs.get('{data_kw}')",
+                "if isinstance(data, np.ndarray):\n    owner = data\n    while isinstance(owner.base, np.ndarray):\n        owner = owner.base\n"
+                f"    if not owner.flags.owndata:\n        kwargs = {{**kwargs, '{data_kw}': data.copy()}}",
+                "return cls(*args, **kwargs)"]
+        got = [ast.unparse(x) for x in ub]
+        if got != want or [a.arg for a in fu.args.args] != ["cls", "args", "kwargs"]:
+            raise T.Untranslatable(f"{cls}._unpickle: statements are {got}, expected {want}", fu, mod.path)
+
+    def lst(xs):
+        return "[" + ", ".join(json.dumps(x) for x in xs) + "]"
+    m.out.append("/-- generated from `__reduce__`: the positional constructor arguments, as the members of the object they read -/")
+    m.out.append("@[pygen] def reduce_args : List (String × List String) := [" + ", ".join(f"({json.dumps(c)}, {lst(a)})" for c, a in args_tbl) + "]")
+    m.out.append("")
+    m.out.append("/-- generated from `__reduce__`: the keyword arguments (parameter, member read) -/")
+    m.out.append("@[pygen] def reduce_kwargs : List (String × List (String × String)) := [\n  "
+                 + ",\n  ".join(f"({json.dumps(c)}, [" + ", ".join(f"({json.dumps(k)}, {json.dumps(v)})" for k, v in kws) + "])" for c, kws in kw_tbl) + "]")
+    m.out.append("")
+    m.out.append("/-- generated from `__init__`: positional and keyword-only parameters -/")
+    m.out.append("@[pygen] def ctor_params : List (String × List String × List String) := [\n  "
+                 + ",\n  ".join(f"({json.dumps(c)}, {lst(a)}, {lst(k)})" for c, a, k in params_tbl) + "]")
+    m.out.append("")
+    m.out.append("/-- generated: `_unpickle` of each class is `cls(*args, **kwargs)` after copying a data array that does not own its memory -/")
+    m.out.append("@[pygen] def unpickle_is_ctor_call : List String := " + lst([c for c, _ in args_tbl]))
+    m.out.append("")
+    return m
+
+
 MODULES = [
     # (output file, builder, dependencies by output name)
     ("TimeValueTuple", lambda repo, deps: gen_time_value_tuple(repo), []),
@@ -1305,6 +1398,7 @@ MODULES = [
     ("AsarrayShim", lambda repo, deps: gen_asarray_shim(repo), []),
     ("SrcReads", lambda repo, deps: gen_src_reads(repo), []),
     ("BtElemSites", lambda repo, deps: gen_bt_elem_sites(repo), []),
+    ("WfmReduce", lambda repo, deps: gen_wfm_reduce(repo), []),
 ]
 
 
